@@ -26,7 +26,7 @@ const (
 	EvTick
 	EvCampaign
 	EvPropose      // Arg = number of entries in the MsgProp (1 or 2)
-	EvProposeConf  // Arg = menu index
+	EvProposeConf  // Arg = menu index; Peer = number of normal entries following the change in the same MsgProp
 	EvReadIndex
 	EvTransfer       // Peer = transferee
 	EvForgetLeader
@@ -44,12 +44,13 @@ const (
 	EvStop    // stop a node for good (removed members)
 	EvDelay   // freeze every message currently in flight to Node until the script has ended (a long delay)
 	EvPauseApply // script-only: Arg 1 pauses, 0 resumes the node's apply thread (async storage writes)
+	EvPauseAppend // script-only: Arg 1 pauses, 0 resumes the node's append thread (async storage writes)
 	numEventKinds
 )
 
 var evNames = [...]string{"none", "Ready", "ReadyApply", "Advance", "Append", "Apply", "Local", "Deliver", "Drop", "Dup",
 	"Tick", "Campaign", "Propose", "ProposeConf", "ReadIndex", "Transfer", "ForgetLeader", "Unreachable", "ReportSnap",
-	"Compact", "Crash", "ReadyCrash", "AppendCrash", "Isolate", "Heal", "Cut", "Stop", "Delay", "PauseApply"}
+	"Compact", "Crash", "ReadyCrash", "AppendCrash", "Isolate", "Heal", "Cut", "Stop", "Delay", "PauseApply", "PauseAppend"}
 
 func (k EventKind) String() string { return evNames[k] }
 
@@ -78,6 +79,9 @@ type Event struct {
 }
 
 func (e Event) String() string {
+	if int(e.Kind) >= len(evNames) {
+		return "<next scripted operation>"
+	}
 	switch e.Kind {
 	case EvDeliver, EvDrop, EvDup:
 		return fmt.Sprintf("%s(#%d)", e.Kind, e.Arg)
@@ -115,10 +119,11 @@ const (
 	BCrash
 	BSnapFail
 	BDelay
+	BPause
 	NumBudgets
 )
 
-var budgetNames = [...]string{"tick", "campaign", "propose", "proposeconf", "read", "transfer", "forget", "unreach", "compact", "drop", "dup", "crash", "snapfail", "delay"}
+var budgetNames = [...]string{"tick", "campaign", "propose", "proposeconf", "read", "transfer", "forget", "unreach", "compact", "drop", "dup", "crash", "snapfail", "delay", "pause"}
 
 // NodeCfg is the per-node raft configuration the scenario chooses.
 type NodeCfg struct {
